@@ -1162,7 +1162,9 @@ def _cmp_nested(a, b, tol):
 
 # --------------------------------------------------------------------------
 def run(ctx):
-    ctx.build_with_translator(FILES)
+    ctx.build_with_translator(FILES, after_files=['C11S_Model.v', 'C11S_Proofs.v', 'C11S_Properties.v'])   # sigma-clip model + equivariance
+    from . import c11s
+    c11s.run_sigma_clip_correspondence(ctx, 300 if ctx.tier == 'quick' else 3000)
     quick = ctx.tier == 'quick'
     ctx.cov['rule'] = (
         'K: random images 1..12 x 1..12 on the quarter-integer lattice (float64 -> bottleneck dispatch, float32 -> '
